@@ -10,7 +10,7 @@ op := D now <n> rec* <nreact> (phase lid kind target)*      -- response datagram
     | BA id now <n> type*                                   -- new browser (initial replay at `now`)
     | BR id                                                 -- cancel browser
 ```
-Output: one observation per op, joined by ` | `.  See `harness/cachemodel.py` for the mirror image. -/
+Output: one observation per op, joined by ` | `.  See `harness/cachecommon.py` for the mirror image. -/
 namespace Zc.Driver.C05
 open Zc
 
@@ -91,8 +91,8 @@ def setAdd (l : List Nat) (x : Nat) : List Nat := if l.contains x then l else l 
 def setRem (l : List Nat) (x : Nat) : List Nat := l.filter (fun y => y != x)
 
 /-- listeners are called on a copy of the set; the reactions of the called listeners mutate the set -/
-def applyReacts (ls : List Nat) (phase : Nat) (reacts : List React) : List Nat :=
-  reacts.foldl (fun cur r => if r.phase = phase && ls.contains r.lid then (if r.add then setAdd cur r.target else setRem cur r.target) else cur) ls
+def reactFn (phase : Nat) (reacts : List React) (l : Nat) : List ListenerAct :=
+  (reacts.filter (fun r => r.phase = phase && r.lid = l)).map (fun r => if r.add then ListenerAct.add r.target else ListenerAct.remove r.target)
 
 def idsStr (l : List Nat) : String := sep "," ((l.mergeSort (fun a b => a ≤ b)).map toString)
 
@@ -124,8 +124,9 @@ def step (p : Probes) (h : Host) (op : Op) : Host × String :=
       match out.call1, out.call2 with
       | some (us, c1), some c2 =>
         let ls1 := h.listeners
-        let ls2 := applyReacts ls1 1 reacts
-        let ls3 := applyReacts ls2 2 reacts
+        let nd := notifyDatagram ls1 (reactFn 1 reacts) (reactFn 2 reacts)
+        let ls2 := nd.2.1
+        let ls3 := nd.2.2
         let bs := browsersUpdate h c1 now us
         let (bs', cbs) := browsersComplete bs
         ({ cache := out.cache, listeners := ls3, browsers := bs' },
